@@ -5,8 +5,20 @@ Expected: exit 0 (exit 2 = undecided is tolerated and recorded; exit 1 = false a
 patches are first copied from <dir>/<PID>/out/patch_R*.diff."""
 import json, os, re, shutil, subprocess, sys, concurrent.futures as cf
 ROOT = os.path.dirname(os.path.dirname(os.path.abspath(__file__)))
-def run(cmd, **kw):
-    return subprocess.run(cmd, shell=True, capture_output=True, text=True, **kw)
+def run(cmd, timeout=None, **kw):
+    """shell command in its own process group; on timeout the whole group is killed and an exit code of 124 is reported"""
+    import signal
+    p = subprocess.Popen(cmd, shell=True, stdout=subprocess.PIPE, stderr=subprocess.PIPE, text=True, start_new_session=True, **kw)
+    try:
+        out, err = p.communicate(timeout=timeout)
+    except subprocess.TimeoutExpired:
+        try:
+            os.killpg(p.pid, signal.SIGKILL)
+        except ProcessLookupError:
+            pass
+        out, err = p.communicate()
+        return subprocess.CompletedProcess(cmd, 124, out or "", (err or "") + "\n[timeout]")
+    return subprocess.CompletedProcess(cmd, p.returncode, out, err)
 imp = os.environ.get("IMPORT")
 if imp:
     for pid in sorted(os.listdir(imp)):
